@@ -93,7 +93,7 @@ Theorem time_limit_spec sec usec :
     0 < t <= U64MAX.
 Proof.
   intros Hs Hu. unfold get_time_limit.
-  destruct ((sec <? 0) || (usec <? 0)) eqn:E; [lia|].
+  destruct (sec <? 0) eqn:E; [lia|]. destruct (usec <? 0) eqn:E'; [lia|].
   eexists; split; [reflexivity|].
   unfold sat_add64, sat_mul64, U64MAX.
   destruct (_ =? 0) eqn:E0; repeat split; intros; lia.
@@ -112,9 +112,16 @@ Proof.
   rewrite (Hv Hnz). rewrite Hv' by lia. lia.
 Qed.
 
-Theorem time_limit_negative_rejected sec usec :
-  sec < 0 \/ usec < 0 -> get_time_limit sec usec = None.
-Proof. intros H. unfold get_time_limit. destruct ((sec <? 0) || (usec <? 0)) eqn:E; [reflexivity|lia]. Qed.
+(** a negative [tv_sec] is the shortest limit (it used to panic); a negative [tv_usec] still panics *)
+Theorem time_limit_negative_sec sec usec : sec < 0 -> get_time_limit sec usec = Some 1.
+Proof. intros H. unfold get_time_limit. destruct (sec <? 0) eqn:E; [reflexivity|lia]. Qed.
+
+Theorem time_limit_negative_usec_rejected sec usec :
+  0 <= sec -> usec < 0 -> get_time_limit sec usec = None.
+Proof.
+  intros Hs H. unfold get_time_limit. destruct (sec <? 0) eqn:E; [lia|].
+  destruct (usec <? 0) eqn:E'; [reflexivity|lia].
+Qed.
 
 (** * The oracle holds on every model run (C28). *)
 From OCV Require Import Misc.TimeOracle.
